@@ -196,7 +196,15 @@ func c19Build(c *c19Case, env *fw.Env, v *fw.V) {
 			db.AddProcess(*pb.Out())
 		}
 		db.AutoLayout(schema.DefaultAutoLayoutConfig())
-		earlier = db.Out()
+		// taken out at the end of a chain of calls, as the builder's fluent interface invites
+		switch c.DefReuse % 3 {
+		case 0:
+			earlier = db.Out()
+		case 1:
+			earlier = db.SetVersion("1.0").Out()
+		case 2:
+			earlier = db.SetId("Earlier").SetVersion("1.1").Out()
+		}
 		earlierDump = canon.Model(earlier)
 	}
 	var wantOrder []string
@@ -239,7 +247,15 @@ func c19Build(c *c19Case, env *fw.Env, v *fw.V) {
 		cfg = &schema.AutoLayoutConfig{StartX: c.Layout[0], StartY: c.Layout[1], ColumnGap: c.Layout[2], RowGap: c.Layout[3], ProcessGap: c.Layout[4]}
 	}
 	db.AutoLayout(cfg)
-	defs := db.Out()
+	var defs *schema.Definitions
+	switch (len(c.Procs) + c.DefReuse + c.Reuse) % 3 {
+	case 0:
+		defs = db.Out()
+	case 1:
+		defs = db.SetId("Doc").Out()
+	case 2:
+		defs = db.SetVersion("2").SetId("Doc").Out()
+	}
 	cls := fmt.Sprintf("procs=%d", len(c.Procs))
 	if c.DefReuse > 0 {
 		cls = fmt.Sprintf("procs=%d-after-%d", len(c.Procs), c.DefReuse)
